@@ -176,33 +176,35 @@ def run(repo, rep, tier):
            "" if not extra else f"{extra[0][0]} also sets caption_hidden: creating or editing the caption text changes the visibility that was set through the API",
            key="C16.R2@caption_hidden:writers")
     ct = repo.func("model.py", "_NumbersModel.caption_text")
-    from ..symexec import _unwrap_alias, body_paths, none_test
-    cparam = ct.args.args[2].arg
-
-    def storage_of(e):
-        """<X>.text -> the expression that names the storage object, aliases of plain locals followed."""
-        if isinstance(e, ast.Attribute) and e.attr == "text":
-            v = _unwrap_alias(ct, e.value) if isinstance(e.value, ast.Name) else e.value
-            if isinstance(v, ast.Subscript) and isinstance(v.slice, ast.Name):
-                v = ast.Subscript(value=v.value, slice=_unwrap_alias(ct, v.slice), ctx=ast.Load())
-            return U(v).replace(" ", "")
-        return None
-
-    def is_write(c):
-        return isinstance(c, ast.Call) and (call_name(c) == "clear_field_container" or (last_attr(c.func) == "append" and c.args and U(c.args[0]) == cparam))
-    clears = [storage_of(c.args[0]) for c in body_walk(ct) if isinstance(c, ast.Call) and call_name(c) == "clear_field_container" and c.args]
-    appends = [storage_of(c.func.value) for c in body_walk(ct) if is_write(c) and last_attr(c.func) == "append"]
-    reads = [storage_of(r.value.value) for r in body_walk(ct) if isinstance(r, ast.Return) and isinstance(r.value, ast.Subscript) and try_const(r.value.slice) == 0]
-    stores = set(clears) | set(appends) | set(reads)
-    own = len(stores) == 1 and None not in stores and next(iter(stores)).startswith("self.objects[") and next(iter(stores)).endswith(".super.owned_storage.identifier]")
-    # writes happen only on paths where a caption was given
-    guarded = True
-    for conds, steps, _end in body_paths([x for x in ct.body]):
-        if any(is_write(c) for st in steps for c in ast.walk(st)):
-            given = any((none_test(t, cparam) is True and o is False) or (none_test(t, cparam) is False and o is True) for t, o in conds)
-            guarded = guarded and given
-    ok = own and len(clears) == 1 and len(appends) == 1 and len(reads) == 1 and guarded
-    detail_ct = "" if ok else f"cleared: {clears}, appended to: {appends}, read from: {reads}, writes only when a caption is given: {guarded}"
+    # caption_text from its summary (every call statement recorded as an effect): reading returns the default text for a
+    # stand-in or empty caption and text[0] of the caption's own storage otherwise, changing nothing; writing creates the
+    # real caption archive if needed, then clears and fills the text of that same storage
+    from ..funsum import Summarizer, decide, expect
+    tid_p, cparam = ct.args.args[1].arg, ct.args.args[2].arg
+    cpaths = Summarizer(effect_calls={"*"}).summarize(ct)
+    ARCH = f"self.objects[self.objects[self.table_info_id({tid_p})].super.caption.identifier]"
+    STOR = f"self.objects[{ARCH}.super.owned_storage.identifier]"
+    default = repo.consts.get("DEFAULT_CAPTION_TEXT", "Caption")
+    standin = repo.consts.get("STANDIN_CAPTION_ARCHIVE", "StandinCaptionArchive")
+    bad = []
+    n_sc = 0
+    for given, is_standin, empty in ((False, True, False), (False, False, True), (False, False, False), (True, True, False), (True, False, False)):
+        sc = {f"{cparam} is None": not given, expect(f"{ARCH}.DESCRIPTOR.name == {standin!r}"): is_standin, expect(f"len({STOR}.text) == 0"): empty,
+              expect(f"len({STOR}.text)"): 0 if empty else 1}
+        for fx, kind, got, p_ in decide(cpaths, sc):
+            n_sc += 1
+            fxs = [(k_, expect(U(v_)) if not isinstance(v_, str) else v_) for k_, v_, _n in p_.effects]
+            where = f"caption given={given}, stand-in caption={is_standin}, stored text empty={empty}" + (f", {fx}" if fx else "")
+            if not given:
+                want = expect(repr(default)) if (is_standin or empty) else expect(f"{STOR}.text[0]")
+                if kind != "return" or got != want or fxs:
+                    bad.append(f"{where}: returns `{got}`" + (f" after {fxs[0][0]}" if fxs else "") + f" instead of `{want}` with nothing changed")
+            else:
+                want_fx = ([("call:self.create_caption_archive", tid_p)] if is_standin else []) + [("call:clear_field_container", expect(f"{STOR}.text")), (f"call:{expect(STOR + '.text.append')}", cparam)]
+                if kind != "return" or got != "None" or fxs != want_fx:
+                    bad.append(f"{where}: does {fxs} and returns `{got}`; expected {want_fx}")
+    ok = not bad and n_sc >= 5
+    detail_ct = "; ".join(bad[:2])
     rep.ob("C16.R2", ct, "caption_text: written to and read from text[0] of the caption's own storage", ok, detail_ct, key="C16.R2@caption_text")
     tc = repo.func("model.py", "_NumbersModel.table_coordinates")
     s = U(tc).replace(" ", "").replace("\n", "")
@@ -284,6 +286,9 @@ def _anc(n):
 
 
 VARIANTS = [
+    M("caption-text-not-cleared-before-append", "model.py", "            clear_field_container(self.objects[caption_storage_id].text)\n            self.objects[caption_storage_id].text.append(caption)", "            self.objects[caption_storage_id].text.append(caption)", "C16.R2"),
+    M("caption-text-reads-last-entry", "model.py", "        return self.objects[caption_storage_id].text[0]", "        return self.objects[caption_storage_id].text[-1]", "C16.R2"),
+    M("caption-text-query-creates-archive", "model.py", "            if caption is None:\n                return \"Caption\"\n            self.create_caption_archive(table_id)", "            self.create_caption_archive(table_id)", "C16.R"),
     M("size-memo-shared-map", "model.py", "        self._row_heights = {}\n", "        self._row_heights = dict.fromkeys(self.table_ids(), {})\n", "C16.R2"),
     M("size-reader-by-position", "model.py", "        if row in bucket_map and bucket_map[row].size != 0.0:\n            height = round(bucket_map[row].size)",
       "        if row < len(buckets) and buckets[row].size != 0.0:\n            height = round(buckets[row].size)", "C16.R2"),
